@@ -1807,6 +1807,20 @@ def section_cli(chk, r, binary, rig, n, distinct):
                                                       f"selected by a direct run {want}",
                                    impl=dict(stderr=pr.stderr[-1200:])))
                 return False
+            # ... and is told where the package's non-test binaries are: inside the extraction directory (the
+            # paths recorded at build time are remapped), at a file that exists
+            root2 = os.path.realpath(dest2)
+            for x in e2e.read_jsonl(logp):
+                if x.get("ev") != "start" or not x["bin"].startswith("beta::"):
+                    continue
+                exe = (x.get("env") or {}).get("NEXTEST_BIN_EXE_helper")
+                chk.count("cli_roundtrip_bin_exe_checked")
+                if exe is None or not os.path.realpath(exe).startswith(root2 + os.sep) or not os.path.isfile(exe):
+                    chk.violation("counterexample", "oracle:cli-roundtrip",
+                                  dict(input=desc, clause=f"test {x['bin']} {x['test']} run from the archive extracted to "
+                                                          f"{root2} has NEXTEST_BIN_EXE_helper = {exe!r}: not a file "
+                                                          f"inside the extraction directory"))
+                    return False
             distinct.add(sha(json.dumps([includes, sorted(im)], sort_keys=True).encode()))
             if ci == 0:
                 chk.sample(dict(cli_roundtrip=dict(includes=includes, archive_entries=len(im), tests_run=len(ran))))
